@@ -104,10 +104,13 @@ func (m *Model) Rearrange(perm []int) {
 			expr.Symbol = terms + perm[nt]
 		}
 	})
+	// Note: the expansions of one rule share their CmdArgs and must be updated only once.
+	seenArgs := make(map[*CmdArgs]bool)
 	m.ForEach(Command, func(_ *Nonterm, expr *Expr) {
-		if expr.CmdArgs == nil || expr.CmdArgs.ArgRefs == nil {
+		if expr.CmdArgs == nil || expr.CmdArgs.ArgRefs == nil || seenArgs[expr.CmdArgs] {
 			return
 		}
+		seenArgs[expr.CmdArgs] = true
 		for pos, argRef := range expr.CmdArgs.ArgRefs {
 			if nt := argRef.Symbol - terms; nt >= 0 {
 				argRef.Symbol = terms + perm[nt]
